@@ -570,9 +570,12 @@ func transformFn(r *rand.Rand) val {
 	lp := length(true, true)
 	switch r.Intn(11) {
 	case 0:
-		return fn("rotate", angle(true)(r))
+		return fn("rotate", angle(false)(r))
 	case 1:
-		return fn(pick(r, "skewx", "skewy", "skew"), angle(true)(r))
+		if r.Intn(4) == 0 {
+			return fn("skew", angle(false)(r), angle(false)(r))
+		}
+		return fn(pick(r, "skewx", "skewy", "skew"), angle(false)(r))
 	case 2:
 		return fn(pick(r, "translatex", "translatey", "translate"), lp(r))
 	case 3:
@@ -586,7 +589,7 @@ func transformFn(r *rand.Rand) val {
 	case 7: // the CSS spelling of the names
 		switch r.Intn(3) {
 		case 0:
-			return fn(pick(r, "skewX", "skewY"), angle(true)(r))
+			return fn(pick(r, "skewX", "skewY"), angle(false)(r))
 		case 1:
 			return fn(pick(r, "scaleX", "scaleY"), number(true)(r))
 		}
